@@ -568,20 +568,31 @@ def ledger_scenario(run):
 
 
 def cell_history(run):
-    """atomic operations on the user-ping cell, in log order: (seq, thread, fop, previous value)"""
+    """atomic operations on the user-ping cell, in log order: (seq, thread, fop, previous value, inv) where inv is the sequence
+    number of the `op.begin` marker of the harness operation during which the event was emitted (the atomic operation happened
+    between inv and seq)"""
     h = []
+    begins = {}
+    for o in run.get("ops", []):
+        begins.setdefault(o["t"], []).append((o["b"], o["e"]))
+
+    def inv_of(tid, seq):
+        for b, e in begins.get(tid, []):
+            if b <= seq <= e:
+                return b
+        return 0
     for e in run["log"]:
         nm, a = e[3], e[4:]
         if nm == "ping.user_send":
-            h.append((e[0], e[1], "FUserSend", a[0]))
+            h.append((e[0], e[1], "FUserSend", a[0], inv_of(e[1], e[0])))
         elif nm == "ping.user_poll_pong":
-            h.append((e[0], e[1], "FUserPoll", a[0]))
+            h.append((e[0], e[1], "FUserPoll", a[0], inv_of(e[1], e[0])))
         elif nm == "ping.user_receive_pong":
-            h.append((e[0], e[1], "FReceivePong", a[0]))
+            h.append((e[0], e[1], "FReceivePong", a[0], inv_of(e[1], e[0])))
         elif nm == "ping.emit_ping" and a[2] == 1:
-            h.append((e[0], e[1], "FLoadStore", 1))
+            h.append((e[0], e[1], "FLoadStore", 1, inv_of(e[1], e[0])))
         elif nm == "ping.user_closed":
-            h.append((e[0], e[1], "FDrop", a[0]))
+            h.append((e[0], e[1], "FDrop", a[0], inv_of(e[1], e[0])))
     return h
 
 
@@ -603,8 +614,9 @@ def cell_apply(c, op):
 
 
 def linearise_cell(h):
-    """find an order of the recorded operations, consistent with every thread's own order, in which each operation saw the
-    value it reported (events are emitted after the atomic operation, so the log order may be off by a few positions)"""
+    """linearisability: find an order of the recorded operations, consistent with every thread's own order AND with real time
+    (an operation whose event was logged before another operation was even invoked precedes it), in which each operation saw
+    the value it reported.  Events are emitted after the atomic operation, so the log order itself may be off."""
     per = {}
     for x in h:
         per.setdefault(x[1], []).append(x)
@@ -619,7 +631,10 @@ def linearise_cell(h):
             return None
         seen.add(st)
         cand = sorted((per[t][pos[t]] for t in tids if pos[t] < len(per[t])), key=lambda x: x[0])
+        first_resp = min(x[0] for x in cand)
         for x in cand:
+            if x[4] > first_resp:
+                continue          # some pending operation completed before this one was invoked
             if x[3] != c and not (x[2] == "FLoadStore" and c == 1):
                 continue
             if x[2] == "FLoadStore" and c != 1:
